@@ -208,15 +208,79 @@ Proof.
   intros c. apply (reach_ind c (fun s => cfg s = c)); [reflexivity|].
   intros s l s' IH St. rewrite (cfg_step _ _ _ St). exact IH.
 Qed.
-Lemma nolag_reach : forall c ls s, run step (init c) ls = Some s -> c_lag c = false -> lag s = LagOff /\ inners s = [].
+(* helpers of [inners]: IDial / IConn belong to readLag, ILookup / IOrphan to a partition reader's leader lookup *)
+Definition ilag (i : iphase) : bool := match i with IDial | IConn => true | _ => false end.
+Lemma nolag_reach : forall c ls s, run step (init c) ls = Some s -> c_lag c = false ->
+  lag s = LagOff /\ forallb (fun i => negb (ilag i)) (inners s) = true.
 Proof.
   intros c ls s R NL. rewrite <- (cfg_reach _ _ _ R) in NL. revert NL. revert ls s R.
-  apply (reach_ind c (fun s => c_lag (cfg s) = false -> lag s = LagOff /\ inners s = [])); [auto|].
+  apply (reach_ind c (fun s => c_lag (cfg s) = false -> lag s = LagOff /\ forallb (fun i => negb (ilag i)) (inners s) = true)); [auto|].
   intros s l s' IH St G. pose proof (cfg_step _ _ _ St) as E. rewrite E in G. destruct (IH G) as [A B].
   destruct l; step_inv St; unf; try rewrite reply_all_calls_only; destr_goal; cbn; auto; try congruence;
-  try (rewrite B in *; match goal with H : nth_error [] ?i = Some _ |- _ => destruct i; discriminate end);
-  try (rewrite G in *; discriminate).
+  try (rewrite G in *; discriminate);
+  try (split; [assumption|]); try (rewrite forallb_app1, B; reflexivity); try (apply forallb_upd; auto; fail);
+  try (match goal with H : nth_error (inners s) ?i = Some ?x |- _ => pose proof (forallb_nth _ _ _ _ _ B H) as X; discriminate end).
 Qed.
+
+(* an open lookup connection belongs to a partition reader that is inside LookupPartition *)
+Definition inv8 (s : state) : Prop :=
+  forall j, nth_error (inners s) j = Some ILookup ->
+    exists i f, nth_error (fetchers s) i = Some f /\ f_ph f = FLookup j.
+
+Lemma inv8_step : forall s l s', inv8 s -> step s l = Some s' -> inv8 s'.
+Proof.
+  intros s l s' I St. unfold inv8 in *.
+  destruct l;
+  try solve [ step_inv St; unf; try rewrite reply_all_calls_only; destr_goal; cbn; intros jj Hj;
+              destruct (I jj Hj) as (oi & ofe & H1 & H2); exists oi, ofe; split; auto;
+              try (rewrite nth_error_app1; [exact H1|eapply nth_some_lt; eauto]) ];
+  try solve [ (* a partition reader other than in FLookup moves; helpers untouched *)
+    step_inv St; unf; destr_goal; cbn; intros jj Hj;
+    destruct (I jj Hj) as (oi & ofe & H1 & H2);
+    match goal with E : nth_error (fetchers s) ?i0 = Some ?f0 |- _ =>
+      destruct (Nat.eqb_spec i0 oi);
+      [ subst oi; rewrite E in H1; injection H1 as H1; subst ofe; congruence
+      | exists oi, ofe; split; [rewrite nth_upd_neq; auto|auto] ] end ].
+  - (* LFDial *)
+    step_inv St; unf; cbn; intros jj Hj.
+    + apply nth_app_cases in Hj as [Hj|[Ej _]].
+      * destruct (I jj Hj) as (oi & ofe & H1 & H2).
+        destruct (Nat.eqb_spec i oi); [subst oi; rewrite Heqo in H1; injection H1 as H1; subst ofe; congruence|].
+        exists oi, ofe. split; [rewrite nth_upd_neq; auto|auto].
+      * subst jj. eexists i, _. split; [eapply nth_upd_eq; eauto|reflexivity].
+    + destruct (I jj Hj) as (oi & ofe & H1 & H2).
+      destruct (Nat.eqb_spec i oi); [subst oi; rewrite Heqo in H1; injection H1 as H1; subst ofe; congruence|].
+      exists oi, ofe. split; [rewrite nth_upd_neq; auto|auto].
+    + destruct (I jj Hj) as (oi & ofe & H1 & H2).
+      destruct (Nat.eqb_spec i oi); [subst oi; rewrite Heqo in H1; injection H1 as H1; subst ofe; congruence|].
+      exists oi, ofe. split; [rewrite nth_upd_neq; auto|auto].
+  - (* LFLookup *)
+    step_inv St; unf; cbn; intros jj Hj; rewrite nth_upd in Hj;
+    (destruct (Nat.eqb_spec j jj); [destr_in Hj; discriminate|]);
+    destruct (I jj Hj) as (oi & ofe & H1 & H2);
+    (destruct (Nat.eqb_spec i oi); [subst oi; rewrite Heqo in H1; injection H1 as H1; subst ofe; congruence|]);
+    exists oi, ofe; (split; [rewrite nth_upd_neq; auto|auto]).
+  - (* LFSeeCancel *)
+    step_inv St; unf; cbn; intros jj Hj;
+    try (rewrite nth_upd in Hj; destruct (Nat.eqb_spec j jj); [destr_in Hj; discriminate|]);
+    destruct (I jj Hj) as (oi & ofe & H1 & H2);
+    (destruct (Nat.eqb_spec i oi); [subst oi; rewrite Heqo in H1; injection H1 as H1; subst ofe; congruence|]);
+    exists oi, ofe; (split; [rewrite nth_upd_neq; auto|auto]).
+  - (* LLagBegin *)
+    step_inv St; cbn; intros jj Hj. apply nth_app_cases in Hj as [Hj|[_ Hx]]; [auto|discriminate].
+  - (* LInDial *)
+    step_inv St; cbn; intros jj Hj; rewrite nth_upd in Hj;
+    (destruct (Nat.eqb_spec i jj); [destr_in Hj; discriminate|auto]).
+  - (* LInOffsets *)
+    step_inv St; cbn; intros jj Hj; rewrite nth_upd in Hj;
+    (destruct (Nat.eqb_spec i jj); [destr_in Hj; discriminate|auto]).
+  - (* LInExit *)
+    step_inv St; cbn; intros jj Hj; rewrite nth_upd in Hj;
+    (destruct (Nat.eqb_spec j jj); [destr_in Hj; discriminate|auto]).
+Qed.
+
+Lemma inv8_reach : forall c ls s, run step (init c) ls = Some s -> inv8 s.
+Proof. intros c. apply reach_ind; [intros j H; destruct j; discriminate|apply inv8_step]. Qed.
 
 (* After a Close call has returned: every goroutine Close accounts for has ended and every
    connection they held is closed; what may remain are functions started on an already closed
@@ -225,7 +289,8 @@ Theorem close_post_registry : forall c ls s, run step (init c) ls = Some s -> cl
   live_acc s = 0 /\
   live s = unacc_live s + lag_live (lag s) + count (fun i => negb (idone i)) (inners s) /\
   conns s = count iconn (inners s) /\
-  (c_lag c = false -> live s = unacc_live s /\ conns s = 0).
+  (forall j, nth_error (inners s) j <> Some ILookup) /\
+  (c_lag c = false -> live s = unacc_live s + count (fun i => negb (idone i)) (inners s) /\ conns s = 0).
 Proof.
   intros c ls s R H. destruct (invs_reach _ _ _ R) as [I1 I2].
   pose proof (close_returned_at _ H) as C6.
@@ -248,9 +313,15 @@ Proof.
   { unfold live, unacc_live. rewrite count_split_acc, F1, F4, F5, F6. lia. }
   assert (K : conns s = count iconn (inners s)) by (unfold conns; rewrite F2, F3, F7; lia).
   split; [unfold live_acc; rewrite F1, F4, F5, F6; reflexivity|]. split; [exact L|]. split; [exact K|].
+  assert (NoL : forall j, nth_error (inners s) j <> Some ILookup).
+  { intros j Hj. destruct (inv8_reach _ _ _ R j Hj) as (i & f & H1 & H2).
+    pose proof (fexit_stuck_help s i f Q1 H1) as E. rewrite E in H2. discriminate. }
+  split; [exact NoL|].
   intros NL.
-  pose proof (nolag_reach _ _ _ R NL) as Hl.
-  destruct Hl as [A B]. rewrite L, K, A, B. change (count (fun i => negb (idone i)) []) with 0. change (count iconn []) with 0. cbn. lia.
+  pose proof (nolag_reach _ _ _ R NL) as [A B]. rewrite L, K, A. split; [cbn; lia|].
+  apply count_false. intros x Hx. apply In_nth_error in Hx as (j & Hj).
+  pose proof (forallb_nth _ _ _ _ _ B Hj) as X. destruct x; try reflexivity; try discriminate.
+  exfalso. exact (NoL j Hj).
 Qed.
 
 Theorem close_post_msgs : forall c ls s, run step (init c) ls = Some s ->
